@@ -710,6 +710,146 @@ theorem flat_partial (a b : Grid) (h1 : a.nFace = b.nFace) (h2 : a.width = b.wid
   unfold gridEqFlat gridEq connEq
   simp [h1, h2]
 
+/-! ## the reader is injective on connectivity: `==` distinguishes SOURCE descriptions
+
+    `gridEq` compares stored tables.  What the user changes is an entry of the source table written
+    in some dialect (fill value, start index); `_process_connectivity` / `_replace_fill_values`
+    map it to the stored table.  The clause "changing any single connectivity entry makes the grids
+    unequal" therefore needs this map to be injective on valid source tables.  (C01 proves the
+    round trips `UxVerif.C01.topology_roundtrip`, `UxVerif.C01.ugrid_roundtrip` with
+    `UxVerif.C01.pad_inj`, i.e. decode ∘ encode = id, which gives the same; the entry-level form
+    used here is proved directly so that C20 does not depend on C01's file.)  The harness checks
+    `reader_corresponds` (stored = `procTable` source) on every source pair. -/
+
+theorem procEntry_inj (fill : Option Int) (start x y : Int)
+    (hx : validEntry fill start x = true) (hy : validEntry fill start y = true)
+    (h : procEntry fill start x = procEntry fill start y) : x = y := by
+  cases fill with
+  | none => simp only [procEntry] at h; omega
+  | some f =>
+    simp only [validEntry, Bool.or_eq_true, beq_iff_eq, Bool.and_eq_true, bne_iff_ne, ne_eq] at hx hy
+    simp only [procEntry] at h
+    by_cases hf : f = FILL
+    · subst hf
+      simp only [ne_eq, not_true_eq_false, false_and, if_false] at h
+      by_cases h1 : x = FILL <;> by_cases h2 : y = FILL <;> simp [h1, h2] at h hx hy ⊢
+      · omega
+      · omega
+      · omega
+    · by_cases h1 : x = f <;> by_cases h2 : y = f
+      · rw [h1, h2]
+      · exfalso
+        rcases hy with hy | ⟨hy1, hy2⟩
+        · exact h2 hy
+        · simp [hf, h1, h2, hy1] at h; omega
+      · exfalso
+        rcases hx with hx | ⟨hx1, hx2⟩
+        · exact h1 hx
+        · simp [hf, h1, h2, hx1] at h; omega
+      · rcases hx with hx | ⟨hx1, hx2⟩
+        · exact absurd hx h1
+        · rcases hy with hy | ⟨hy1, hy2⟩
+          · exact absurd hy h2
+          · simp [h1, h2, hx1, hy1] at h; omega
+
+theorem map_inj_on {β γ : Type} (g : β → γ) (P : β → Prop)
+    (hinj : ∀ x y, P x → P y → g x = g y → x = y) :
+    ∀ (l₁ l₂ : List β), (∀ x ∈ l₁, P x) → (∀ x ∈ l₂, P x) → l₁.map g = l₂.map g → l₁ = l₂ := by
+  intro l₁
+  induction l₁ with
+  | nil => intro l₂ _ _ h; cases l₂ with
+    | nil => rfl
+    | cons _ _ => simp at h
+  | cons a l ih =>
+    intro l₂ h1 h2 h
+    cases l₂ with
+    | nil => simp at h
+    | cons b l' =>
+      simp only [List.map_cons, List.cons.injEq] at h
+      have hab := hinj a b (h1 a (by simp)) (h2 b (by simp)) h.1
+      have := ih l' (fun x hx => h1 x (List.mem_cons_of_mem _ hx))
+        (fun x hx => h2 x (List.mem_cons_of_mem _ hx)) h.2
+      rw [hab, this]
+
+/-- **the reader is injective on valid source tables** (any fill value incl. large positive
+    sentinels, any start index): distinct source tables are stored as distinct tables. -/
+theorem procTable_inj (fill : Option Int) (start : Int) (t₁ t₂ : Table)
+    (h1 : validTable fill start t₁ = true) (h2 : validTable fill start t₂ = true)
+    (h : procTable fill start t₁ = procTable fill start t₂) : t₁ = t₂ := by
+  simp only [validTable, List.all_eq_true] at h1 h2
+  unfold procTable at h
+  refine map_inj_on (fun r : List Int => r.map (procEntry fill start))
+    (fun r => ∀ x ∈ r, validEntry fill start x = true) ?_ t₁ t₂ h1 h2 h
+  intro r₁ r₂ hr1 hr2 hr
+  exact map_inj_on (procEntry fill start) (fun x => validEntry fill start x = true)
+    (fun x y hx hy hxy => procEntry_inj fill start x y hx hy hxy) r₁ r₂ hr1 hr2 hr
+
+theorem flatten_inj_width (w : Nat) :
+    ∀ (t₁ t₂ : Table), (∀ r ∈ t₁, r.length = w) → (∀ r ∈ t₂, r.length = w) →
+      t₁.length = t₂.length → t₁.flatten = t₂.flatten → t₁ = t₂ := by
+  intro t₁
+  induction t₁ with
+  | nil => intro t₂ _ _ hl _; cases t₂ with
+    | nil => rfl
+    | cons _ _ => simp at hl
+  | cons r t ih =>
+    intro t₂ h1 h2 hl hf
+    cases t₂ with
+    | nil => simp at hl
+    | cons r' t' =>
+      simp only [List.flatten_cons] at hf
+      have hlen : r.length = r'.length := by rw [h1 r (by simp), h2 r' (by simp)]
+      obtain ⟨hr, ht⟩ := List.append_inj hf hlen
+      have := ih t' (fun x hx => h1 x (List.mem_cons_of_mem _ hx))
+        (fun x hx => h2 x (List.mem_cons_of_mem _ hx)) (by simpa using hl) ht
+      rw [hr, this]
+
+/-- **changing the source description is detected**: two grids read from valid source tables of
+    the same shape in the same dialect, whatever their coordinates and attached coordinates — if
+    the source tables differ (one entry: a real index ↔ padding, index ↔ index ± 1, …) the grids
+    are unequal, in both orders. -/
+theorem source_change_detected (fill : Option Int) (start : Int) (w : Nat) (t₁ t₂ : Table)
+    (hw1 : ∀ r ∈ t₁, r.length = w) (hw2 : ∀ r ∈ t₂, r.length = w) (hl : t₁.length = t₂.length)
+    (h1 : validTable fill start t₁ = true) (h2 : validTable fill start t₂ = true)
+    (a b : Grid) (ha : a.conn = (procTable fill start t₁).flatten)
+    (hb : b.conn = (procTable fill start t₂).flatten) (hne : t₁ ≠ t₂) :
+    gridEq a b = false ∧ gridEq b a = false := by
+  have hconn : a.conn ≠ b.conn := by
+    intro h
+    apply hne
+    apply procTable_inj fill start t₁ t₂ h1 h2
+    apply flatten_inj_width w
+    · intro r hr
+      simp only [procTable, List.mem_map] at hr
+      obtain ⟨r0, hr0, rfl⟩ := hr
+      simp [hw1 r0 hr0]
+    · intro r hr
+      simp only [procTable, List.mem_map] at hr
+      obtain ⟨r0, hr0, rfl⟩ := hr
+      simp [hw2 r0 hr0]
+    · simp [procTable, hl]
+    · rw [← ha, ← hb, h]
+  have hns : ¬ Same a b := fun hs => hconn hs.2.2.2.2.2
+  have h := any_difference_detected a b hns
+  exact ⟨h, by rw [eq_symm]; exact h⟩
+
+-- non-vacuity: one-past-the-end sentinel 100000 on 100000 nodes; the highest index 99999 vs padding
+example : procTable (some 100000) 0 [[5, 99998, 99999]] ≠ procTable (some 100000) 0 [[5, 99998, 100000]] := by
+  decide
+example : validTable (some 100000) 0 [[5, 99998, 99999]] = true ∧
+    validTable (some 999999) 1 [[999998, 7, 999999]] = true := by decide
+
+/-- a TOLERANT fill test (`np.isclose` with its default relative tolerance 1e-5 ⇒ ±1 around the
+    sentinel 100000, ±9 around 999999) is not injective: the highest real index is read as
+    padding, so a quadrilateral and the triangle without that corner are stored identically. -/
+theorem tolerant_fill_not_injective :
+    [[5, 99997, 99998, 99999]].map (·.map (procEntryTol 1 100000 0))
+      = [[5, 99997, 99998, 100000]].map (·.map (procEntryTol 1 100000 0)) ∧
+    [[3, 4, 999990]].map (·.map (procEntryTol 9 999999 0))
+      = [[3, 4, 999999]].map (·.map (procEntryTol 9 999999 0)) ∧
+    procTable (some 100000) 0 [[5, 99997, 99998, 99999]]
+      ≠ procTable (some 100000) 0 [[5, 99997, 99998, 100000]] := by decide
+
 /-- what `or` computes: it forgets one of the two coordinate comparisons. -/
 theorem asis_eq_iff (a b : Grid) :
     gridEqAsIs a b = true ↔
